@@ -92,6 +92,8 @@ pub struct Net {
     bg_merge: Option<Arc<Mutex<Option<String>>>>,
     /// flooding clients: id -> (bytes received, how the stream ended once it has ended, requests written)
     floods: HashMap<String, Arc<Mutex<(u64, Option<&'static str>, u64)>>>,
+    /// the LD_PRELOAD recorder, when it is loaded: faults on the server's store files
+    io: Option<crate::store::IoTrace>,
 }
 
 enum ReadEnd {
@@ -169,6 +171,7 @@ impl Net {
             nstore: 0,
             bg_merge: None,
             floods: HashMap::new(),
+            io: crate::store::IoTrace::load(),
         }
     }
 
@@ -403,17 +406,29 @@ impl Net {
                 self.stop();
                 let mut max = 128usize;
                 let mut cfg_toks = vec![];
+                let mut keep = false;
                 for t in rest {
                     if let Some(v) = t.strip_prefix("max=") {
                         max = v.parse().ok()?;
+                    } else if *t == "keep" {
+                        // a restart: the directory of the previous server is opened again
+                        keep = true;
                     } else {
                         cfg_toks.push(*t);
                     }
                 }
-                self.nstore += 1;
+                if !keep {
+                    self.nstore += 1;
+                }
                 let dir = self.root.join(format!("netstore{}", self.nstore));
-                let _ = std::fs::remove_dir_all(&dir);
+                if !keep {
+                    let _ = std::fs::remove_dir_all(&dir);
+                }
                 std::fs::create_dir_all(&dir).ok()?;
+                if let Some(io) = &self.io {
+                    io.set_dir(&dir);
+                    io.reset();
+                }
                 let conf = make_config(&cfg_json(&cfg_toks)?, &dir).ok()?;
                 let kv = conf.open().ok()?;
                 let handle = kv.get_handle();
@@ -549,6 +564,17 @@ impl Net {
                 self.conns.insert(id.to_string(), s);
                 Some("ok".into())
             }
+            ["io.fault", n, errno] => {
+                // the n-th call from now on one of the store's files fails with errno (once)
+                let io = self.io.as_ref()?;
+                let n: i64 = n.parse().ok()?;
+                io.fail_at(io.seq() + n, errno.parse().ok()?);
+                Some("ok".into())
+            }
+            ["io.seq"] => Some(match &self.io {
+                Some(io) => format!("{}", io.seq()),
+                None => "no-iotrace".into(),
+            }),
             ["c.sendbig", id, key, byte, count] => {
                 // SET <key> <byte x count> without putting the value on the request line
                 let key = unhex(key)?;
